@@ -71,6 +71,7 @@ def run(ctx):
     construct.check_one = tapped
     try:
         construct.run(ctx, ctx.scale(64, 256), ctx.scale(2, 20))
+        construct.run_children(ctx, ctx.scale(300, 4000))
     finally:
         construct.check_one = orig
     if ctx.extra.get('model_available', True) and tap.items:
@@ -87,6 +88,7 @@ def run(ctx):
 
 def search(ctx, hints):
     construct.run(ctx, 256, ctx.scale(10, 40))
+    construct.run_children(ctx, 3000)
 
 
 def replay(ctx, data):
@@ -94,5 +96,6 @@ def replay(ctx, data):
     import check
     c = check.Ctx('C15', 'quick', ctx.seed)
     construct.run(c, 64, 2)
+    construct.run_children(c, 600)
     sig = data.get('signature')
     return not any(f['sig'] == sig for f in c.oracle_fails)
